@@ -114,7 +114,7 @@ CLAIMED = {
    engine="Carriers",
    technique="TLA+ spec Carriers.tla (load() with its memo as state over texts x carriers, caller-side mutation of returned containers, LoadRef) checked exhaustively by TLC; real unmarshal/load/strload/decode over texts x 5 carriers x the type universe validated by TLC trace spec Carriers_Trace.tla with stdlib json/ast facts",
    level="model_checking",
-   text="TLC explores every load() history over a text pool in the five carriers with the LRU memo as a state variable and checks carrier-freedom and agreement with LoadRef (and shows that memoising on the carrier object, or handing out the memo's own containers, violates it). On the real code, every type of the TLC universe is fed the same text in str/bytes/bytearray/memoryview(bytes)/memoryview(bytearray) and TLC requires equal outcomes or rejection by all; load/strload/decode are run over 63 adversarial texts with facts from the standard json and ast modules, each load/strload again after the returned container was deep-mutated; JSON text, literal text and the decoded wire value must unmarshal alike for collection, mapping and structured types.",
+   text="TLC explores every load() history over a text pool in the eight carriers (str, bytes, bytearray, views of bytes / a bytearray / a window of a larger buffer / a strided view) with the LRU memo as a state variable and checks carrier-freedom and agreement with LoadRef (and shows that memoising on the carrier object, or handing out the memo's own containers, violates it). On the real code, every type of the TLC universe is fed the same text in str/bytes/bytearray/memoryview(bytes)/memoryview(bytearray) and TLC requires equal outcomes or rejection by all; load/strload/decode are run over 63 adversarial texts with facts from the standard json and ast modules, each load/strload again after the returned container was deep-mutated; JSON text, literal text and the decoded wire value must unmarshal alike for collection, mapping and structured types.",
    ref="DESIGN.md section 4 C14",
    note="Trusted: TLC; stdlib json (strict) and ast.literal_eval as fact sources; texts where strict and lenient JSON decoders disagree are excluded."),
  "C02": dict(
